@@ -10,8 +10,10 @@ Theorems about one iteration of `forward_message`'s recipient loop (`deliverOne`
 `forward_message`, `send_to_loggers` and `send_ack` (`trySend`) and about `send_failed_message` (`failedMsg`), for every
 state, frame, writable set, set of failing sockets and every nested forward `fwd`.
 
-Refinement link, partial (the counted lower bounds of `checkData` / `checkDepartures` and `checkNoticeOrigin` are not
-linked): `spec_guard_clause_passes_on_model` (no notice about a notice, every history) and
+Refinement link, partial (the counted lower bounds of `checkData` / `checkDepartures` are not linked):
+`spec_guard_clause_passes_on_model` (no notice about a notice, every history),
+`spec_notice_origin_clause_passes_on_model` (the clause `Spec.checkNoticeOrigin` — a notice is never invented — returns
+its argument on the events of every frame and of every stretch before the first read of a round, in a simulated state) and
 `logger_waited_clause_passes_partial` — the clause `Spec.checkLoggerWaited` ("a logger module is waited for instead of being
 skipped") adds no entry on the events of any frame the model reads in a state the Spec's abstract state simulates
 (`Inv`, which holds after every history: `spec_invariant_after_any_history`, and at every frame inside a round:
